@@ -157,6 +157,7 @@ Definition c17_check (c : c17case) : bool :=
                  && (negb cok || (list_eqb line_eqb (flat_map (fun e => client_lines (client_view e)) es) clines
                                   && grouping_ok es cs))
       | Err s => negb ok && (err_class s =? errc)
+      | Panic _ => negb ok && (errc =? 100)      (* the real compiler panicked *)
       | _ => false
       end
   end.
